@@ -37,6 +37,28 @@ TARGETS = [
     dict(name="tbc_decrypt", file="src/tbc_header/decrypt.rs", fn="decrypt", kind="slice_loop"),
     dict(name="rc4_prga", file="src/rc4.rs", fn="pseudo_random_generation", kind="method",
          fields=[("state", ("arr", "u8")), ("i", "u8"), ("j", "u8")], helpers=["s_i", "s_j"], ret="u8"),
+    dict(name="vanilla_server_header_from_array", file="src/vanilla_header/mod.rs", fn="from_array", nth=0, kind="function", ret="N * N", structs={"Self": ["size", "opcode"]}),
+    dict(name="vanilla_client_header_from_array", file="src/vanilla_header/mod.rs", fn="from_array", nth=1, kind="function", ret="N * N", structs={"Self": ["size", "opcode"]}),
+    dict(name="vanilla_encrypt_server_header", file="src/vanilla_header/encrypt.rs", fn="encrypt_server_header", kind="method", fields=[("half", "opaque")], helpers=[],
+         externs={"self.encrypt": ("ext_raw", "self.half")}, ret=("arr", "u8")),
+    dict(name="vanilla_encrypt_client_header", file="src/vanilla_header/encrypt.rs", fn="encrypt_client_header", kind="method", fields=[("half", "opaque")], helpers=[],
+         externs={"self.encrypt": ("ext_raw", "self.half")}, ret=("arr", "u8")),
+    dict(name="vanilla_decrypt_server_header", file="src/vanilla_header/decrypt.rs", fn="decrypt_server_header", kind="method", fields=[("half", "opaque")], helpers=[],
+         externs={"self.decrypt": ("ext_raw", "self.half")}, ret="N * N",
+         opt_calls={"ServerHeader::from_array": ("tr_vanilla_server_header_from_array", "hdr")}),
+    dict(name="vanilla_decrypt_client_header", file="src/vanilla_header/decrypt.rs", fn="decrypt_client_header", kind="method", fields=[("half", "opaque")], helpers=[],
+         externs={"self.decrypt": ("ext_raw", "self.half")}, ret="N * N",
+         opt_calls={"ClientHeader::from_array": ("tr_vanilla_client_header_from_array", "hdr")}),
+    dict(name="tbc_encrypt_server_header", file="src/tbc_header/encrypt.rs", fn="encrypt_server_header", kind="method", fields=[("half", "opaque")], helpers=[],
+         externs={"self.encrypt": ("ext_raw", "self.half")}, ret=("arr", "u8")),
+    dict(name="tbc_encrypt_client_header", file="src/tbc_header/encrypt.rs", fn="encrypt_client_header", kind="method", fields=[("half", "opaque")], helpers=[],
+         externs={"self.encrypt": ("ext_raw", "self.half")}, ret=("arr", "u8")),
+    dict(name="tbc_decrypt_server_header", file="src/tbc_header/decrypt.rs", fn="decrypt_server_header", kind="method", fields=[("half", "opaque")], helpers=[],
+         externs={"self.decrypt": ("ext_raw", "self.half")}, ret="N * N",
+         opt_calls={"ServerHeader::from_array": ("tr_vanilla_server_header_from_array", "hdr")}),
+    dict(name="tbc_decrypt_client_header", file="src/tbc_header/decrypt.rs", fn="decrypt_client_header", kind="method", fields=[("half", "opaque")], helpers=[],
+         externs={"self.decrypt": ("ext_raw", "self.half")}, ret="N * N",
+         opt_calls={"ClientHeader::from_array": ("tr_vanilla_client_header_from_array", "hdr")}),
     dict(name="rc4_apply_keystream", file="src/rc4.rs", fn="apply_keystream", kind="method_slice_loop",
          fields=[("state", ("arr", "u8")), ("i", "u8"), ("j", "u8")],
          self_calls={"pseudo_random_generation": ("tr_rc4_prga", ["self.state", "self.i", "self.j"])}),
